@@ -65,17 +65,31 @@ fn encode_request(case: &Case) -> Vec<u8> {
             RHeader::Class(c) => o.extend(ra::h_all(60, 1 + (*c).clamp(1, 3))),
             RHeader::All(ty, v) => {
                 let ty = *ty % 8;
-                let var = if ty == 7 { 0 } else { svar_of(ty, *v).unwrap_or(0) };
+                let var = if ty == 7 {
+                    0
+                } else {
+                    svar_of(ty, *v).unwrap_or(0)
+                };
                 o.extend(ra::h_all(STATIC_GROUP[ty as usize], var));
             }
             RHeader::Range(ty, v, a, b, wide) => {
                 let ty = *ty % 8;
-                let var = if ty == 7 { 0 } else { svar_of(ty, *v).unwrap_or(0) };
+                let var = if ty == 7 {
+                    0
+                } else {
+                    svar_of(ty, *v).unwrap_or(0)
+                };
                 let (a, b) = (*a.min(b), *a.max(b));
                 if *wide || b > 255 {
                     o.extend(ra::h_range16(STATIC_GROUP[ty as usize], var, a, b, &[]));
                 } else {
-                    o.extend(ra::h_range8(STATIC_GROUP[ty as usize], var, a as u8, b as u8, &[]));
+                    o.extend(ra::h_range8(
+                        STATIC_GROUP[ty as usize],
+                        var,
+                        a as u8,
+                        b as u8,
+                        &[],
+                    ));
                 }
             }
         }
@@ -90,16 +104,44 @@ enum Block {
 }
 
 fn expected_blocks(case: &Case, db: &BTreeMap<(u8, u16), (PointSpec, Rec)>) -> Vec<Block> {
-    let of_type = |ty: u8, lo: u16, hi: u16, v: Option<u8>| -> Vec<(u8, u16, Option<u8>)> { db.keys().filter(|(t, i)| *t == ty && *i >= lo && *i <= hi).map(|(t, i)| (*t, *i, v)).collect() };
+    let of_type = |ty: u8, lo: u16, hi: u16, v: Option<u8>| -> Vec<(u8, u16, Option<u8>)> {
+        db.keys()
+            .filter(|(t, i)| *t == ty && *i >= lo && *i <= hi)
+            .map(|(t, i)| (*t, *i, v))
+            .collect()
+    };
     let mut out = vec![];
     for h in &case.headers {
         match h {
             RHeader::Class0 => {
-                out.push(Block::AnyTypeOrder((0..8u8).map(|ty| of_type(ty, 0, 65535, None)).filter(|b| !b.is_empty()).collect()));
+                out.push(Block::AnyTypeOrder(
+                    (0..8u8)
+                        .map(|ty| of_type(ty, 0, 65535, None))
+                        .filter(|b| !b.is_empty())
+                        .collect(),
+                ));
             }
             RHeader::Class(_) => {}
-            RHeader::All(ty, v) => out.push(Block::Ordered(of_type(*ty % 8, 0, 65535, if *ty % 8 == 7 { None } else { svar_of(*ty % 8, *v) }))),
-            RHeader::Range(ty, v, a, b, _) => out.push(Block::Ordered(of_type(*ty % 8, *a.min(b), *a.max(b), if *ty % 8 == 7 { None } else { svar_of(*ty % 8, *v) }))),
+            RHeader::All(ty, v) => out.push(Block::Ordered(of_type(
+                *ty % 8,
+                0,
+                65535,
+                if *ty % 8 == 7 {
+                    None
+                } else {
+                    svar_of(*ty % 8, *v)
+                },
+            ))),
+            RHeader::Range(ty, v, a, b, _) => out.push(Block::Ordered(of_type(
+                *ty % 8,
+                *a.min(b),
+                *a.max(b),
+                if *ty % 8 == 7 {
+                    None
+                } else {
+                    svar_of(*ty % 8, *v)
+                },
+            ))),
         }
     }
     out
@@ -110,10 +152,24 @@ fn static_type(g: u8) -> Option<u8> {
 }
 
 /// does the wire object carry the snapshot value of the point, in an admissible variation?
-fn check_object(spec: &PointSpec, rec: &Rec, requested: Option<u8>, g: u8, v: u8, data: &[u8]) -> Result<(), String> {
+fn check_object(
+    spec: &PointSpec,
+    rec: &Rec,
+    requested: Option<u8>,
+    g: u8,
+    v: u8,
+    data: &[u8],
+) -> Result<(), String> {
     let ty = spec.ty;
     if ty == 7 {
-        return if data == &rec.bytes[..] { Ok(()) } else { Err(format!("octet string {:02x?} != snapshot {:02x?}", data, rec.bytes)) };
+        return if data == &rec.bytes[..] {
+            Ok(())
+        } else {
+            Err(format!(
+                "octet string {:02x?} != snapshot {:02x?}",
+                data, rec.bytes
+            ))
+        };
     }
     let base = requested.unwrap_or(spec.svar);
     let plain_online = match ty {
@@ -121,7 +177,11 @@ fn check_object(spec: &PointSpec, rec: &Rec, requested: Option<u8>, g: u8, v: u8
         1 => rec.flags & 0x3F == 0x01,
         _ => true,
     };
-    let allowed = if matches!(ty, 0 | 1 | 2) && base == 1 && !plain_online { 2 } else { base };
+    let allowed = if matches!(ty, 0 | 1 | 2) && base == 1 && !plain_online {
+        2
+    } else {
+        base
+    };
     if v != allowed {
         return Err(format!("reported as g{g}v{v}, expected variation {allowed} (requested {:?}, configured {}, flags {:#04x})", requested, spec.svar, rec.flags));
     }
@@ -166,15 +226,27 @@ impl Prop for Snapshot {
         }
     }
     fn floors() -> Vec<(&'static str, u32)> {
-        vec![("multi_fragment", 80), ("update_to_unreported_point", 30), ("series_aborted", 30)]
+        vec![
+            ("multi_fragment", 80),
+            ("update_to_unreported_point", 30),
+            ("series_aborted", 30),
+        ]
     }
     fn strategy(_tier: Tier) -> BoxedStrategy<Case> {
         let idx = prop_oneof![4 => 0u16..40, 1 => 0u16..300, 1 => prop_oneof![Just(255u16), Just(256), Just(65535), Just(65534)]];
-        let point = (0u8..8, idx.clone(), 0u8..=3, any::<u8>(), any::<u8>()).prop_map(|(ty, index, class, s, e)| {
-            let sv = STATIC_VARS[ty as usize];
-            let ev = EVENT_VARS[ty as usize];
-            PointSpec { ty, index, class, svar: sv[s as usize % sv.len()], evar: ev[e as usize % ev.len()] }
-        });
+        let point = (0u8..8, idx.clone(), 0u8..=3, any::<u8>(), any::<u8>()).prop_map(
+            |(ty, index, class, s, e)| {
+                let sv = STATIC_VARS[ty as usize];
+                let ev = EVENT_VARS[ty as usize];
+                PointSpec {
+                    ty,
+                    index,
+                    class,
+                    svar: sv[s as usize % sv.len()],
+                    evar: ev[e as usize % ev.len()],
+                }
+            },
+        );
         // runs of consecutive points of one type make multi-fragment responses likely
         let run = prop_oneof![
             8 => (0u8..8, 0u16..60, prop_oneof![3 => 1u16..60, 1 => 60u16..200], any::<u8>()).prop_map(|(ty, start, n, s)| {
@@ -211,17 +283,33 @@ impl Prop for Snapshot {
             proptest::collection::vec(conf, 12),
             any::<u8>(),
         )
-            .prop_map(|(mut points, runs, headers, sol_tx, seq, updates, confs, flags_seed)| {
-                for r in runs {
-                    points.extend(r);
-                }
-                points.sort_by_key(|p| (p.ty, p.index));
-                points.dedup_by_key(|p| (p.ty, p.index));
-                if points.is_empty() {
-                    points.push(PointSpec { ty: 0, index: 0, class: 1, svar: 1, evar: 1 });
-                }
-                Case { points, headers, sol_tx, seq, updates, confs, flags_seed }
-            })
+            .prop_map(
+                |(mut points, runs, headers, sol_tx, seq, updates, confs, flags_seed)| {
+                    for r in runs {
+                        points.extend(r);
+                    }
+                    points.sort_by_key(|p| (p.ty, p.index));
+                    points.dedup_by_key(|p| (p.ty, p.index));
+                    if points.is_empty() {
+                        points.push(PointSpec {
+                            ty: 0,
+                            index: 0,
+                            class: 1,
+                            svar: 1,
+                            evar: 1,
+                        });
+                    }
+                    Case {
+                        points,
+                        headers,
+                        sol_tx,
+                        seq,
+                        updates,
+                        confs,
+                        flags_seed,
+                    }
+                },
+            )
             .boxed()
     }
     fn run(case: &Case) -> CaseOut {
@@ -234,7 +322,11 @@ fn rec_for(p: &PointSpec, serial: u32, flags_seed: u8) -> Rec {
     let mut r = unique_rec(p.ty, p.index, serial, serial, 0);
     // arbitrary quality flags (state bits stay consistent with the value), so that packed variations get promoted
     let q = ((p.index as u8).wrapping_mul(31) ^ flags_seed ^ (serial as u8).wrapping_mul(7)) & 0x3E;
-    let q = if (p.index as u8 ^ flags_seed) % 3 == 0 { q } else { 0 };
+    let q = if (p.index as u8 ^ flags_seed) % 3 == 0 {
+        q
+    } else {
+        0
+    };
     match p.ty {
         0 | 2 => r.flags = (r.flags & 0x81) | (q & 0x7E),
         1 => r.flags = (r.flags & 0xC1) | (q & 0x3E),
@@ -265,7 +357,11 @@ async fn run_case(case: &Case) -> CaseOut {
     for p in &case.points {
         serial += 1;
         let r = rec_for(p, serial, case.flags_seed);
-        let opt = if wants_events { UpdateOptions::detect_event() } else { UpdateOptions::no_event() };
+        let opt = if wants_events {
+            UpdateOptions::detect_event()
+        } else {
+            UpdateOptions::no_event()
+        };
         rig.db(|d| update_point(d, &r, opt));
         db.insert((p.ty, p.index), (p.clone(), r));
     }
@@ -312,13 +408,24 @@ async fn run_case(case: &Case) -> CaseOut {
         let headers = match f.headers() {
             Ok(h) => h,
             Err(e) => {
-                out.fail(Fail::new("unparsable-response", format!("fragment #{k}: {:?}", e)));
+                out.fail(Fail::new(
+                    "unparsable-response",
+                    format!("fragment #{k}: {:?}", e),
+                ));
                 return out;
             }
         };
-        let has_events = headers.iter().any(|h| ra::is_event_group(h.g) && !h.objects.is_empty());
+        let has_events = headers
+            .iter()
+            .any(|h| ra::is_event_group(h.g) && !h.objects.is_empty());
         if (!f.fin || has_events) && !f.con {
-            out.fail(Fail::new("series-shape", format!("fragment #{k} is {} but does not request confirmation", if !f.fin { "not final" } else { "event-bearing" })));
+            out.fail(Fail::new(
+                "series-shape",
+                format!(
+                    "fragment #{k} is {} but does not request confirmation",
+                    if !f.fin { "not final" } else { "event-bearing" }
+                ),
+            ));
             return out;
         }
         for h in &headers {
@@ -349,7 +456,10 @@ async fn run_case(case: &Case) -> CaseOut {
             }
             rig.settle().await;
             if !rig.take_tx().is_empty() {
-                out.fail(Fail::new("series-gating", "a database update during the confirm wait caused a transmission"));
+                out.fail(Fail::new(
+                    "series-gating",
+                    "a database update during the confirm wait caused a transmission",
+                ));
                 return out;
             }
         }
@@ -357,7 +467,10 @@ async fn run_case(case: &Case) -> CaseOut {
         let quiet = |rig: &mut OutRig, what: &str| -> Option<Fail> {
             let tx = rig.take_tx();
             if tx.iter().any(|t| matches!(t, Tx::Fragment { .. })) {
-                Some(Fail::new("series-gating", format!("{what}: the outstation transmitted {:?}", tx)))
+                Some(Fail::new(
+                    "series-gating",
+                    format!("{what}: the outstation transmitted {:?}", tx),
+                ))
             } else {
                 None
             }
@@ -394,11 +507,25 @@ async fn run_case(case: &Case) -> CaseOut {
                 match conf {
                     Conf::Missing => rig.advance(TIMEOUT + 1).await,
                     Conf::NewRequest => {
-                        rig.send(&Fragment::request((case.seq + 9) & 0x0F, func::DELAY_MEASURE, vec![]));
+                        rig.send(&Fragment::request(
+                            (case.seq + 9) & 0x0F,
+                            func::DELAY_MEASURE,
+                            vec![],
+                        ));
                         rig.settle().await;
                         let tx = rig.take_fragments();
-                        if tx.len() != 1 || tx[0].seq != (case.seq + 9) & 0x0F || !tx[0].fir || !tx[0].fin {
-                            out.fail(Fail::new("new-request-during-series", format!("the request that interrupts the series was answered with {:?}", tx)));
+                        if tx.len() != 1
+                            || tx[0].seq != (case.seq + 9) & 0x0F
+                            || !tx[0].fir
+                            || !tx[0].fin
+                        {
+                            out.fail(Fail::new(
+                                "new-request-during-series",
+                                format!(
+                                    "the request that interrupts the series was answered with {:?}",
+                                    tx
+                                ),
+                            ));
                             return out;
                         }
                     }
@@ -450,43 +577,72 @@ async fn run_case(case: &Case) -> CaseOut {
     }
     // events before static data
     let first_static = all.iter().position(|(_, h)| static_type(h.g).is_some());
-    let last_event = all.iter().rposition(|(_, h)| ra::is_event_group(h.g) && !h.objects.is_empty());
+    let last_event = all
+        .iter()
+        .rposition(|(_, h)| ra::is_event_group(h.g) && !h.objects.is_empty());
     if let (Some(s), Some(e)) = (first_static, last_event) {
         if e > s {
-            out.fail(Fail::new("events-after-static", "an event object follows static data in the response series"));
+            out.fail(Fail::new(
+                "events-after-static",
+                "an event object follows static data in the response series",
+            ));
         }
     }
     // packed objects split across fragments
     for w in all.windows(2) {
-        if w[0].0 != w[1].0 && w[0].1.g == w[1].1.g && w[0].1.v == 1 && w[1].1.v == 1 && matches!(w[0].1.g, 1 | 3 | 10) {
+        if w[0].0 != w[1].0
+            && w[0].1.g == w[1].1.g
+            && w[0].1.v == 1
+            && w[1].1.v == 1
+            && matches!(w[0].1.g, 1 | 3 | 10)
+        {
             out.label("packed_split");
         }
     }
     let wire: Vec<(u8, u16, u8, u8, Vec<u8>)> = all
         .iter()
         .filter_map(|(_, h)| static_type(h.g).map(|ty| (ty, h)))
-        .flat_map(|(ty, h)| h.objects.iter().map(move |o| (ty, o.index.unwrap_or(0) as u16, h.g, h.v, o.data.clone())))
+        .flat_map(|(ty, h)| {
+            h.objects
+                .iter()
+                .map(move |o| (ty, o.index.unwrap_or(0) as u16, h.g, h.v, o.data.clone()))
+        })
         .collect();
     let blocks = expected_blocks(case, &snapshot);
     let mut p = 0usize;
-    let check_seq = |exp: &[(u8, u16, Option<u8>)], got: &[(u8, u16, u8, u8, Vec<u8>)], out: &mut CaseOut| {
-        for (e, g) in exp.iter().zip(got.iter()) {
-            if (e.0, e.1) != (g.0, g.1) {
-                out.fail(Fail::new(
-                    "snapshot-points",
-                    format!("expected {} index {} next, the series reports {} index {}", TYPE_NAMES[e.0 as usize], e.1, TYPE_NAMES[g.0 as usize], g.1),
-                ));
-                return;
+    let check_seq =
+        |exp: &[(u8, u16, Option<u8>)], got: &[(u8, u16, u8, u8, Vec<u8>)], out: &mut CaseOut| {
+            for (e, g) in exp.iter().zip(got.iter()) {
+                if (e.0, e.1) != (g.0, g.1) {
+                    out.fail(Fail::new(
+                        "snapshot-points",
+                        format!(
+                            "expected {} index {} next, the series reports {} index {}",
+                            TYPE_NAMES[e.0 as usize], e.1, TYPE_NAMES[g.0 as usize], g.1
+                        ),
+                    ));
+                    return;
+                }
+                let (spec, rec) = &snapshot[&(e.0, e.1)];
+                if let Err(why) = check_object(spec, rec, e.2, g.2, g.3, &g.4) {
+                    out.fail(
+                        Fail::new(
+                            "snapshot-value",
+                            format!("{} index {}: {why}", TYPE_NAMES[e.0 as usize], e.1),
+                        )
+                        .with_sig(format!(
+                            "C11 snapshot-value {}",
+                            if why.contains("variation") {
+                                "variation"
+                            } else {
+                                "content"
+                            }
+                        )),
+                    );
+                    return;
+                }
             }
-            let (spec, rec) = &snapshot[&(e.0, e.1)];
-            if let Err(why) = check_object(spec, rec, e.2, g.2, g.3, &g.4) {
-                out.fail(
-                    Fail::new("snapshot-value", format!("{} index {}: {why}", TYPE_NAMES[e.0 as usize], e.1)).with_sig(format!("C11 snapshot-value {}", if why.contains("variation") { "variation" } else { "content" })),
-                );
-                return;
-            }
-        }
-    };
+        };
     for b in &blocks {
         if out.failed() {
             break;
@@ -498,7 +654,15 @@ async fn run_case(case: &Case) -> CaseOut {
                 check_seq(&exp[..n], &wire[p..p + n], &mut out);
                 p += n;
                 if n < exp.len() && !aborted && !out.failed() {
-                    out.fail(Fail::new("snapshot-points", format!("the series ended but {} index {} (and {} more) were never reported", TYPE_NAMES[exp[n].0 as usize], exp[n].1, exp.len() - n - 1)));
+                    out.fail(Fail::new(
+                        "snapshot-points",
+                        format!(
+                            "the series ended but {} index {} (and {} more) were never reported",
+                            TYPE_NAMES[exp[n].0 as usize],
+                            exp[n].1,
+                            exp.len() - n - 1
+                        ),
+                    ));
                 }
             }
             Block::AnyTypeOrder(groups) => {
@@ -507,7 +671,13 @@ async fn run_case(case: &Case) -> CaseOut {
                     let ty = wire[p].0;
                     match remaining.iter().position(|g| g[0].0 == ty) {
                         None => {
-                            out.fail(Fail::new("snapshot-points", format!("class 0: unexpected (or repeated) block of {} at index {}", TYPE_NAMES[ty as usize], wire[p].1)));
+                            out.fail(Fail::new(
+                                "snapshot-points",
+                                format!(
+                                    "class 0: unexpected (or repeated) block of {} at index {}",
+                                    TYPE_NAMES[ty as usize], wire[p].1
+                                ),
+                            ));
                         }
                         Some(i) => {
                             let exp = remaining.remove(i);
@@ -515,13 +685,25 @@ async fn run_case(case: &Case) -> CaseOut {
                             check_seq(&exp[..n], &wire[p..p + n], &mut out);
                             p += n;
                             if n < exp.len() && !aborted && !out.failed() {
-                                out.fail(Fail::new("snapshot-points", format!("class 0: {} block incomplete", TYPE_NAMES[ty as usize])));
+                                out.fail(Fail::new(
+                                    "snapshot-points",
+                                    format!(
+                                        "class 0: {} block incomplete",
+                                        TYPE_NAMES[ty as usize]
+                                    ),
+                                ));
                             }
                         }
                     }
                 }
                 if !remaining.is_empty() && !aborted && !out.failed() {
-                    out.fail(Fail::new("snapshot-points", format!("class 0: no data reported for {}", TYPE_NAMES[remaining[0][0].0 as usize])));
+                    out.fail(Fail::new(
+                        "snapshot-points",
+                        format!(
+                            "class 0: no data reported for {}",
+                            TYPE_NAMES[remaining[0][0].0 as usize]
+                        ),
+                    ));
                 }
             }
         }
@@ -537,19 +719,39 @@ async fn run_case(case: &Case) -> CaseOut {
         let s2 = (case.seq + 3) & 0x0F;
         let (spec, rec) = db.values().next().cloned().unwrap();
         let hdr = RHeader::Range(spec.ty, None, spec.index, spec.index, spec.index > 255);
-        let probe = Case { points: vec![], headers: vec![hdr], sol_tx: case.sol_tx, seq: s2, updates: vec![], confs: vec![], flags_seed: 0 };
+        let probe = Case {
+            points: vec![],
+            headers: vec![hdr],
+            sol_tx: case.sol_tx,
+            seq: s2,
+            updates: vec![],
+            confs: vec![],
+            flags_seed: 0,
+        };
         rig.send(&Fragment::request(s2, func::READ, encode_request(&probe)));
         rig.settle().await;
         let f = rig.take_fragments();
         if f.len() != 1 || !f[0].fir || !f[0].fin || f[0].seq != s2 {
-            out.fail(Fail::new("fresh-series", format!("the READ after the series was answered with {} fragments, first {:?}", f.len(), f.first().map(|x| (x.fir, x.fin, x.seq)))));
+            out.fail(Fail::new(
+                "fresh-series",
+                format!(
+                    "the READ after the series was answered with {} fragments, first {:?}",
+                    f.len(),
+                    f.first().map(|x| (x.fir, x.fin, x.seq))
+                ),
+            ));
         } else {
             let objs: Vec<(u8, u32, u8, u8, Vec<u8>)> = f[0]
                 .headers()
                 .unwrap_or_default()
                 .into_iter()
                 .filter_map(|h| static_type(h.g).map(|ty| (ty, h)))
-                .flat_map(|(ty, h)| h.objects.clone().into_iter().map(move |o| (ty, o.index.unwrap_or(0), h.g, h.v, o.data)))
+                .flat_map(|(ty, h)| {
+                    h.objects
+                        .clone()
+                        .into_iter()
+                        .map(move |o| (ty, o.index.unwrap_or(0), h.g, h.v, o.data))
+                })
                 .collect();
             if objs.len() != 1 || objs[0].0 != spec.ty || objs[0].1 != spec.index as u32 {
                 out.fail(
@@ -559,8 +761,13 @@ async fn run_case(case: &Case) -> CaseOut {
                     )
                     .with_sig("C11 fresh-series leftover".to_string()),
                 );
-            } else if let Err(why) = check_object(&spec, &rec, None, objs[0].2, objs[0].3, &objs[0].4) {
-                out.fail(Fail::new("fresh-series", format!("a READ after the series does not report the current value: {why}")));
+            } else if let Err(why) =
+                check_object(&spec, &rec, None, objs[0].2, objs[0].3, &objs[0].4)
+            {
+                out.fail(Fail::new(
+                    "fresh-series",
+                    format!("a READ after the series does not report the current value: {why}"),
+                ));
             }
         }
     }
